@@ -226,6 +226,17 @@ class C12(Harness):
                 r3 = t.transform(z)
                 out["r3"] = pack(r3)
             out["state"] = [before, mid, self._snapshot(t)]
+            if w == "detrender":
+                # a forecaster object handed to the constructor is a prototype: fitting the detrender leaves it alone, so a
+                # second detrender built from the same object (fitted on other data) cannot change the first one's results
+                DT = W.load("sktime.transformations.series.detrend._detrend").Detrender
+                PTF = W.load("sktime.forecasting.trend").PolynomialTrendForecaster
+                proto = PTF(degree=1)
+                d1 = DT(forecaster=proto).fit(y)
+                a1 = pack(d1.transform(z))
+                proto_fitted = bool(proto.is_fitted)
+                DT(forecaster=proto).fit(ser(list(reversed(inp["y"])), s0 + 3))
+                out["shared_proto"] = {"prototype_fitted": proto_fitted or bool(proto.is_fitted), "a1": a1, "a2": pack(d1.transform(z))}
             return out
         # forecasters
         NF = W.load("sktime.forecasting.naive").NaiveForecaster
@@ -319,6 +330,16 @@ class C12(Harness):
                 g.predict(np.array([1, 2]))
             res.append(pack(g.predict(FHc(np.array([1, 2]), is_relative=False))))
         out["interleave"] = res
+        if w.startswith("naive"):
+            # window forecasters produce in-sample steps by walking their own data: asking twice gives the same answer
+            g = clone(f)
+            g.fit(y, fh=np.array([-1, 0, 1]))
+            try:
+                q1 = pack(g.predict())
+                q2 = pack(g.predict())
+                out["insample_twice"] = [q1, q2]
+            except NotImplementedError:
+                pass
         return out
 
     def _panel(self, W, inp, cell):
@@ -447,6 +468,12 @@ class C12(Harness):
             self._same_tree(P, "apply-leaves-caller-data-unchanged", out["r1_after_inverse"], out["r1_in"], d)
             self._same_tree(P, "repeated-apply-same-result", out["r3"], out["r1"], d)
         self._same_tree(P, "repeated-apply-same-result", out["r2"], out["r1"], d)
+        if "shared_proto" in out:
+            sp_ = out["shared_proto"]
+            P.check("fit-leaves-caller-data-unchanged", not sp_["prototype_fitted"], dict(d, what="the forecaster passed to the constructor was fitted in place"))
+            self._same_tree(P, "repeated-apply-same-result", sp_["a2"], sp_["a1"], dict(d, what="another detrender built from the same forecaster object was fitted in between"))
+        if "insample_twice" in out:
+            self._same_tree(P, "repeated-apply-same-result", out["insample_twice"][1], out["insample_twice"][0], dict(d, what="predict() repeated with an in-sample horizon given at fit"))
         if "interleave" in out:
             self._same_tree(P, "repeated-apply-same-result", out["interleave"][1], out["interleave"][0], dict(d, what="after an interleaved predict with another horizon"))
             for lab, want in zip(out["interleave"][0][0], (1, 2)):
